@@ -607,7 +607,17 @@ def _check_report(run, repo, world):
     mod = repo.mod(HID)
     _check_wake_clear(run, repo, world)
     r = world.method(HID + ".tridonic", "_bus_watch")
-    fn = _bus_watch_roles(r[2])
+    # helpers of the class (a wrapper around bus_traffic._invoke, an
+    # extracted wait) are inlined first
+    from ..drv import expand_method
+    c_ = world.cls(HID + ".tridonic")
+    fn = expand_method(world, c_, r[2], aliases="params")
+    from ..normal import drop_dead_stores
+    from ..inline import acopy as _acopy
+    fn = _acopy(fn)
+    drop_dead_stores(fn)
+    ast.fix_missing_locations(fn)
+    fn = _bus_watch_roles(fn)
     Q = HID + ".tridonic._bus_watch"
     cfg = CFG(fn, may_raise=suspension_may_raise, name=Q)
     cet = cond_edge_transfer()
@@ -659,6 +669,29 @@ def _check_report(run, repo, world):
             st = st | {"fresh"}
         return st
     W = forward_worlds(cfg, transfer, cet, max_worlds=60000)
+    # while a command is pending (awaiting its repeat or its answer) the
+    # watcher never waits without a timeout: otherwise an unanswered query
+    # is only reported when the next frame happens to arrive
+    EVW = "self._bus_watch_data_available.wait()"
+    for n in cfg.reachable:
+        if n.ast is None or n.kind not in ("stmt", "test"):
+            continue
+        t_ = unparse(n.ast, 400)
+        if EVW not in t_ or "wait_for" in t_:
+            continue
+        bad = W.worlds_with(n, lambda w: not (
+            ("cond", "current_command", False) in w or
+            ("cond", "current_command is None", True) in w or
+            ("cond", "current_command == None", True) in w))
+        run.ob("R-REPORT", Q + "#pending-command-waits-with-timeout",
+               not bad,
+               "the watcher can wait for data without a timeout while a "
+               "command is pending (conditions on the path: %s): a query "
+               "nobody answers is then not reported as 'no answer' after "
+               "its 200 ms" % (sorted(
+                   "%s=%s" % (f[1], f[2]) for f in bad[0]
+                   if isinstance(f, tuple) and f[0] == "cond")[:6]
+                   if bad else ""), where(mod, n))
     heads = [n for n in cfg.reachable if n.kind == "join" and "loop" in
              n.info]
     allw = set()
@@ -999,7 +1032,10 @@ def _check_subs(run, repo, world):
         stores_a[0][1]) == hp
     if okadd:
         akey = keytext(add, stores_a[0][0].slice, hp)
-        okadd = akey in ("hash(H)", "id(H)", "H")
+        # any key computed from the child (hash(H), id(H), a helper of H);
+        # del_handler below must compute the same one
+        import re as _re
+        okadd = bool(_re.search(r"\bH\b", akey))
         for p_ in paths.summaries(add):
             nst = sum(1 for (tg, v) in p_.effects
                       if tg.startswith("self._handlers["))
